@@ -73,6 +73,24 @@ func (w *World) byzBlock(b int, r int, variant string) *BlockInfo {
 	if bi, ok := w.byzBlocks[key]; ok {
 		return bi
 	}
+	if variant == "replay-previous" {
+		// the block the receiver committed at the previous height, offered again for this height (every field of it
+		// was valid one height ago: only a validation that really looks at this height's state refuses it)
+		if h < 2 {
+			return nil
+		}
+		for _, rec := range rn.SavedRecords() {
+			if rec.Height == h-1 {
+				bi := w.noteBlock(rec.Block, nil, "", "")
+				if w.byzBlocks == nil {
+					w.byzBlocks = map[string]*BlockInfo{}
+				}
+				w.byzBlocks[key] = bi
+				return bi
+			}
+		}
+		return nil
+	}
 	var commit *types.Commit
 	if h == 1 {
 		commit = types.NewCommit(0, 0, types.BlockID{}, nil)
@@ -243,7 +261,7 @@ func (w *World) byzProposal(b int, bi *BlockInfo, h uint64, round, pol uint32, t
 
 var invalidVariants = []string{"bad-apphash", "bad-lastblockid", "bad-time", "bad-valhash", "bad-nextvalhash", "bad-height", "bad-proposer", "bad-lastcommit",
 	"bad-parent-parts-total", "bad-parent-parts-hash", "bad-time-earlier", "bad-lastcommit-round", "bad-lastcommit-height", "bad-lastcommit-id-parts",
-	"bad-lastcommit-half", "bad-lastcommit-swapped-sigs", "bad-lastcommit-short"}
+	"bad-lastcommit-half", "bad-lastcommit-swapped-sigs", "bad-lastcommit-short", "replay-previous"}
 
 // byzMenu lists the adversary's moves against receiver r in its current state.
 func (w *World) byzMenu(r int) []*ByzAction {
